@@ -8,21 +8,38 @@
    the correspondence run decides: after every operation every dataclass field, id, content_id and hash of every
    pre-existing node is re-read and compared with its value before the operation, and setattr / delattr on every
    field must raise. *)
-From Oak Require Import Model.Registry Proofs.RegistryProofs.
+From Oak Require Import Model.Registry Proofs.RegistryProofs Proofs.RegistryReach.
 
-Theorem C10_heap_frame : forall H ct fx s o a, a < length (heap s) ->
-  nth_error (heap (fst (step H ct fx s o))) a = nth_error (heap s) a.
+Theorem C10_heap_frame : forall H ct late fx s o a, a < length (heap s) ->
+  nth_error (heap (fst (step H ct late fx s o))) a = nth_error (heap s) a.
 Proof. exact heap_frame. Qed.
-Theorem C10_history_frame : forall H ct fx l s a, a < length (heap s) ->
-  nth_error (heap (run H ct fx s l)) a = nth_error (heap s) a.
+Theorem C10_history_frame : forall H ct late fx l s a, a < length (heap s) ->
+  nth_error (heap (run H ct late fx s l)) a = nth_error (heap s) a.
 Proof. exact run_heap_frame. Qed.
-(* a raising replace changes nothing at all that can be looked up *)
-Theorem C10_replace_fail_frame : forall H ct s dst src ch s' e, RInv s ->
-  step H ct true s (Replace dst src ch) = (s', Raised e) ->
-  heap s' = heap s /\ vars s' = vars s /\ forall j, get_any s' j = get_any s j.
-Proof. exact replace_fail_frame. Qed.
+(* an operation that raises - early, or late: after a subclass's own __post_init__ rejected a node (duplicate: after
+   any number of copies) that had already been given an id and registered - changes no existing node (the heap only
+   grew), no variable and no lookup; in particular every existing node keeps its id (and with it its hash) *)
+Theorem C10_replace_fail_frame : forall H ct late s dst src ch s' e, RInv s ->
+  step H ct late true s (Replace dst src ch) = (s', Raised e) ->
+  (exists ext, heap s' = heap s ++ ext) /\ vars s' = vars s /\ (forall j, get_any s' j = get_any s j) /\
+  (forall x, length (heap s) <= x -> reachable s' x = false).
+Proof. intros H ct late s dst src ch. exact (fail_frame H ct late s (Replace dst src ch)). Qed.
+Theorem C10_fail_frame : forall H ct late s o s' e, RInv s -> step H ct late true s o = (s', Raised e) ->
+  (exists ext, heap s' = heap s ++ ext) /\ vars s' = vars s /\ (forall j, get_any s' j = get_any s j) /\
+  (forall x, length (heap s) <= x -> reachable s' x = false).
+Proof. exact fail_frame. Qed.
+Theorem C10_fail_keeps_id : forall H ct late s o s' e, RInv s -> step H ct late true s o = (s', Raised e) ->
+  forall a c, cell_at s a = Some c -> cell_at s' a = Some c /\ get_any s' (k_id c) = get_any s (k_id c).
+Proof. exact fail_keeps_id. Qed.
 Example C10_ex_frame :
-  let s' := fst (step ex_H ex_ct true ex_state (Replace 3 (2, 2) [(lit "v", CProp (VInt 7))])) in
+  let s' := fst (step ex_H ex_ct no_late true ex_state (Replace 3 (2, 2) [(lit "v", CProp (VInt 7))])) in
   length (heap ex_state) = 3 /\ length (heap s') = 4 /\ firstn 3 (heap s') = heap ex_state
   /\ get_any ex_state (lit ")_1") = Some 1 /\ get_any s' (lit ")_1") = None.
 Proof. vm_compute. repeat split. Qed.
+(* a late-failing replace: premise of C10_fail_frame inhabited (class A rejects note == "bad" after registration) *)
+Example C10_ex_fail_late :
+  let late := late_of ex_ct [VReject (lit "A") (lit "note") (VStr (lit "bad"))] in
+  let r := step ex_H ex_ct late true ex_state (Replace 3 (2, 2) [(lit "note", CProp (VStr (lit "bad")))]) in
+  RInv ex_state /\ snd r = Raised EValue /\ length (heap (fst r)) = 4 /\ firstn 3 (heap (fst r)) = heap ex_state
+  /\ get_any (fst r) (lit ")_1") = Some 1.
+Proof. split; [exact ex_state_inv|vm_compute; repeat split]. Qed.
